@@ -25,9 +25,21 @@ def strip_comments(src):
     return src
 
 def cut_tests(src):
-    # drop `#[cfg(test)] mod test { ... }` tails (always last in this crate)
-    m = re.search(r'#\[cfg\(test\)\]\s*(#\[[^\]]*\]\s*)*mod\s+\w+\s*\{', src)
-    return src[:m.start()] if m else src
+    # drop every `#[cfg(test)] mod name { ... }` block (brace-balanced), keep whatever follows it
+    while True:
+        m = re.search(r'#\[cfg\(test\)\]\s*(#\[[^\]]*\]\s*)*mod\s+\w+\s*\{', src)
+        if not m:
+            return src
+        depth = 0
+        end = len(src)
+        for j in range(m.end() - 1, len(src)):
+            if src[j] == '{': depth += 1
+            elif src[j] == '}':
+                depth -= 1
+                if depth == 0:
+                    end = j + 1
+                    break
+        src = src[:m.start()] + src[end:]
 
 def load(repo, rel):
     p = os.path.join(repo, rel)
@@ -81,10 +93,13 @@ class Consts:
         self.vals[name] = v
         return v
 
-def fn_body(src, name, what):
-    m = re.search(r'fn\s+' + name + r'\s*(?:<[^>]*>)?\s*\(', src)
-    if not m:
+def fn_body(src, name, what, unique=False):
+    ms = list(re.finditer(r'fn\s+' + name + r'\s*(?:<[^>]*>)?\s*\(', src))
+    if not ms:
         die("function %s not found in %s" % (name, what))
+    if unique and len(ms) != 1:
+        die("%d functions named %s in %s (a tied function must be the only one of its name there)" % (len(ms), name, what))
+    m = ms[0]
     i = src.index('{', m.end())
     depth = 0
     for j in range(i, len(src)):
@@ -132,6 +147,19 @@ def hash_layout(src, name, what):
         groups[-1].append(re.sub(r'\s+', '', arg).lstrip('&'))
         pos = end
     return groups
+
+def hash_shape(src, name, what):
+    """what else happens in a function whose hash field order is listed: constructors other than `new()`, one-shot digests, resets,
+    control flow, rebinding of names, and the tail expression — so that 'same fields in the same order' cannot hide a different use"""
+    body = fn_body(src, name, what, unique=True)
+    flat = re.sub(r'\s+', '', body)
+    ctors = sorted(re.findall(r'(Sha1::\w+|Hmac(?:::<[^>]*>)?::\w+|Context::\w+|md5::\w+|Md5::\w+)\(', body))
+    meths = sorted(re.findall(r'\.(chain_update|update|consume|finalize\w*|reset|compute|into_bytes|digest|reverse|rev|truncate|take|skip|step_by)\(', body))
+    ctrl = sorted(re.findall(r'\b(if|for|while|loop|match|return|break)\b', body))
+    lets = re.findall(r'\blet\s+(?:mut\s+)?(\w+)', body)
+    rebound = sorted(set(n for n in lets if lets.count(n) > 1))
+    tail = flat[:-1].split(";")[-1]
+    return ["ctors:" + ",".join(ctors), "methods:" + ",".join(meths), "control:" + ",".join(ctrl), "rebound:" + ",".join(rebound), "tail:" + tail]
 
 def lean_str(x):
     return '"' + x.replace('\\', '\\\\').replace('"', '\\"') + '"'
@@ -213,8 +241,13 @@ def main():
         # the seed literal of this half; when the half no longer holds its own copy (key derivation moved into a shared helper) the
         # seed is the ONE 16-byte literal of the TBC module — if there are several different ones it is not guessed
         try:
-            return find_let_array(text, "s", what)
-        except Missing:
+            a = find_let_array(text, "s", what)
+            if len(re.findall(r'\blet\s+(?:mut\s+)?s\b', text)) != 1:
+                die("the seed `s` is bound more than once in " + what)
+            return a
+        except Missing as ex:
+            if "more than once" in str(ex):
+                raise
             lits = set()
             for t in (tbe, tbd, src("src/tbc_header/mod.rs")):
                 for m in re.finditer(r':\s*\[\s*u8\s*;\s*(?:16|SEED_LENGTH|[A-Z_]+)\s*\]\s*=\s*\[([^\]]*)\]\s*;', t):
@@ -254,7 +287,12 @@ def main():
         "wrath_header/decrypt.rs large_header: v & LIT != 0")
     ic = src("src/wrath_header/inner_crypto/mod.rs")
     put("nat", "wrathKeyLength", lambda: c.scalar(ic, "KEY_LENGTH", "inner_crypto/mod.rs"), "wrath_header/inner_crypto KEY_LENGTH")
-    put("nat", "wrathDrop", lambda: rx(r'let\s+mut\s+pad_data\s*=\s*\[\s*0_?u8\s*;\s*(\d+)\s*\]', ic, "pad_data drop length in inner_crypto/mod.rs", int),
+    def wrath_drop():
+        n = rx(r'let\s+mut\s+pad_data\s*=\s*\[\s*0_?u8\s*;\s*(\d+)\s*\]', ic, "pad_data drop length in inner_crypto/mod.rs", int)
+        if len(re.findall(r'apply_keystream\s*\(\s*&mut\s+pad_data\s*\)', ic)) != 1 or len(re.findall(r'pad_data', ic)) != 2:
+            die("the pad is not applied exactly once and as a whole (`inner.apply_keystream(&mut pad_data)`)")
+        return n
+    put("nat", "wrathDrop", wrath_drop,
         "wrath_header/inner_crypto: keystream bytes discarded")
     def half_const(text, struct):
         return rx(r'impl\s+' + struct + r'\s*\{.*?fn\s+new\s*\(.*?InnerCrypto::new\s*\(\s*session_key\s*,\s*&\s*(\w+)\s*\)', text, "InnerCrypto::new(session_key, &X) of " + struct, str, re.S)
@@ -356,8 +394,8 @@ def main():
             ("layoutTbcEncKey", tbe, "new", "tbc_header/encrypt.rs"),
             ("layoutTbcDecKey", tbd, "new", "tbc_header/decrypt.rs"),
             ("layoutWrathInnerNew", ic, "new", "wrath_header/inner_crypto/mod.rs")]:
-        put("layout", lname, lambda text=text, fname=fname, what=what: hash_layout(text, fname, what),
-            "%s: arguments fed to each hash object of `%s`, in source order" % (what, fname))
+        put("layout", lname, lambda text=text, fname=fname, what=what: hash_layout(text, fname, what) + [hash_shape(text, fname, what)],
+            "%s: arguments fed to each hash object of `%s`, in source order; last group: constructors / methods / control flow / rebound names / tail expression of the function" % (what, fname))
 
     # thin wrappers the model defines as plain delegation: the body of each is listed (whitespace removed) so that the obligation
     # "facade method = the half's method on the half it owns", "every constructor = new", "the three expansions hash (name, key,
@@ -413,10 +451,53 @@ def main():
             out.append("%s: %s=(%s)" % (fm, m.group(1), re.sub(r"\s+", "", arg)))
         if not out:
             die("no calculate_world_server_proof call in " + what)
+        if re.search(r'\bfn\s+calculate_world_server_proof\b', text) or re.search(r'calculate_world_server_proof\s+as\b|\bas\s+calculate_world_server_proof\b', text):
+            die("a local function or alias named calculate_world_server_proof in " + what)
         return out
     layout_put("worldProofCallsVanilla", lambda: world_calls(van, "vanilla_header/mod.rs"), "vanilla_header/mod.rs: calls of calculate_world_server_proof (enclosing fn, bound name, arguments)")
     layout_put("worldProofCallsTbc", lambda: world_calls(tbm, "tbc_header/mod.rs"), "tbc_header/mod.rs: calls of calculate_world_server_proof")
     layout_put("worldProofCallsWrath", lambda: world_calls(wm, "wrath_header/mod.rs"), "wrath_header/mod.rs: calls of calculate_world_server_proof")
+
+    # GLUE between the translated / modelled cores and the public API: small functions whose whole body is listed (whitespace removed).
+    # The functions translated by tools/gen_code.py (cipher loops, header builders and parsers, strip rule, RC4 step, big-integer
+    # formulas) are NOT listed here — they have a semantic obligation instead.
+    def all_fn_bodies(text, what, skip=()):
+        out = []
+        for m in re.finditer(r'\bfn\s+(\w+)\s*(?:<[^>]*>)?\s*\(', text):
+            n = m.group(1)
+            if n in skip:
+                continue
+            i = text.find('{', m.end())
+            semi = text.find(';', m.end())
+            if i < 0 or (0 <= semi < i):
+                continue                      # a declaration without body
+            depth = 0
+            for j in range(i, len(text)):
+                if text[j] == '{': depth += 1
+                elif text[j] == '}':
+                    depth -= 1
+                    if depth == 0:
+                        sig = re.sub(r'\s+', '', text[m.start():i])
+                        out.append("%s %s" % (sig, re.sub(r'\s+', '', text[i:j + 1])))
+                        break
+        return out
+    TRANSLATED_V = ("encrypt_server_header", "encrypt_client_header")
+    def half_glue(enc_text, dec_text, what):
+        # the free functions `encrypt` / `decrypt` (translated) are the LAST of their name; the methods of the same name are listed
+        def drop_free(text, name):
+            ms = list(re.finditer(r'\bfn\s+' + name + r'\s*\(', text))
+            if len(ms) != 2:
+                die("expected the method and the free function `%s` in %s, found %d" % (name, what, len(ms)))
+            return text[:ms[1].start()]
+        return all_fn_bodies(drop_free(enc_text, "encrypt"), what, TRANSLATED_V) + all_fn_bodies(drop_free(dec_text, "decrypt"), what)
+    vane, vand = src("src/vanilla_header/encrypt.rs"), src("src/vanilla_header/decrypt.rs")
+    layout_put("glueVanilla", lambda: half_glue(vane, vand, "vanilla_header"), "vanilla_header/{encrypt,decrypt}.rs: signature and body of every function except the translated ones")
+    layout_put("glueTbc", lambda: half_glue(tbe, tbd, "tbc_header"), "tbc_header/{encrypt,decrypt}.rs: signature and body of every function except the translated ones")
+    layout_put("glueWrath", lambda: all_fn_bodies(we, "wrath_header/encrypt.rs", ("encrypt_server_header", "encrypt_client_header")) + all_fn_bodies(wd, "wrath_header/decrypt.rs")
+               + all_fn_bodies(ic, "wrath_header/inner_crypto/mod.rs"), "wrath_header/{encrypt,decrypt,inner_crypto}.rs: signature and body of every function except the translated builders")
+    bigi = src("src/bigint.rs")
+    layout_put("glueSrp", lambda: all_fn_bodies(key, "key.rs", ("as_equal_slice",)) + all_fn_bodies(bigi, "bigint.rs") + all_fn_bodies(primes, "primes.rs"),
+               "key.rs, bigint.rs, primes.rs: signature and body of every function (conversions between byte arrays and big integers, key checks) except the translated strip rule")
 
     # semantics the model takes from `#[derive(..)]`: Clone is a field-wise copy, == / Ord / Hash are structural over all fields,
     # nothing runs on drop, Default is what the listed impls say.  The translator lists (a) every hand-written impl of one of those
@@ -433,14 +514,16 @@ def main():
             for m in re.finditer(r'\bimpl\s*(?:<[^>{]*>\s*)?(?:[\w:]+::)?(\w+)(?:<[^>{]*>)?\s+for\s+(\$?\w+)', text):
                 if m.group(1) in STRUCT_TRAITS:
                     manual.append("%s for %s @%s" % (m.group(1), m.group(2), rel))
-            for m in re.finditer(r'#\[derive\(([^)]*)\)\]\s*(?:#\[[^\]]*\]\s*)*(?:pub(?:\([^)]*\))?\s+)?(?:struct|enum)\s+(\$?\w+)', text):
+            for m in re.finditer(r'#\[derive\(([^)]*)\)\]\s*(?:#\[[^\]]*\]\s*)*(?:pub(?:\([^)]*\))?\s+)?(?:struct|enum)\s+(\$?\w+)[^{;]*(\{[^}]*\})?', text):
                 ds = [d.strip().split("::")[-1] for d in m.group(1).split(",") if d.strip()]
-                derives.append("%s @%s: %s" % (m.group(2), rel, " ".join(d for d in ds if d in STRUCT_TRAITS)))
+                # field (variant) names in declaration order: derived Ord / PartialOrd / Hash follow that order
+                fields = re.findall(r'(?:pub(?:\([^)]*\))?\s+)?(\w+)\s*(?::|,|\(|\})', (m.group(3) or "")[1:]) if m.group(3) else []
+                derives.append("%s @%s: %s | %s" % (m.group(2), rel, " ".join(d for d in ds if d in STRUCT_TRAITS), " ".join(fields)))
             # code that exists only when a feature is OFF is never compiled into the harness (which turns every feature on and builds the two
             # math back ends): the model has one behaviour per back end, so every `cfg(.. not(..) ..)` fork is listed
             for m in re.finditer(r'#\[cfg\(((?:[^()]|\([^()]*\)|\((?:[^()]|\([^()]*\))*\))*)\)\]', text):
                 a = re.sub(r"\s+", "", m.group(1))
-                if "not(" in a and "test" not in a:
+                if a != "test":
                     manual.append("cfg %s @%s" % (a, rel))
             # a struct / enum with no derive attribute at all still matters (it then has none of the traits)
             for m in re.finditer(r'(?<!\]\n)(?<!\] )\b(?:pub(?:\([^)]*\))?\s+)?(?:struct|enum)\s+(\$?\w+)', text):
